@@ -60,7 +60,14 @@ pub fn embedded_files() -> Vec<(String, Vec<u8>)> {
 fn place(cfg: &Cfg, bytes: &crate::model::Bytes, in_lower: bool) -> Result<Built, String> {
     let n = cfg.overlay_layers();
     let layer = if in_lower && n >= 2 { n - 1 } else { 0 };
-    let prepop: Prepop = vec![(layer, FILE.to_string(), Node::File(bytes.clone()))];
+    let mut prepop: Prepop = vec![(layer, FILE.to_string(), Node::File(bytes.clone()))];
+    if in_lower && n >= 3 {
+        // a deeper layer holds the same name with other bytes: the upper of the two must be served
+        let mut other = bytes.as_ref().clone();
+        other.extend_from_slice(b"deeper-layer-version");
+        prepop[0].0 = n - 2;
+        prepop.push((n - 1, FILE.to_string(), Node::File(std::sync::Arc::new(other))));
+    }
     build(cfg, &prepop)
 }
 
@@ -125,7 +132,7 @@ pub fn test_write(case: &WriteCase, st: &mut Stats, counting: bool) -> CaseResul
     let mut trace = vec![];
     let r = guarded(|| -> Result<bool, String> {
         let mut init = case.initial.clone();
-        init.kind = 4 + init.kind % 21; // non-empty, not huge
+        init.kind = 4 + init.kind % 24; // non-empty
         let bytes = make_bytes(&init);
         let built = place(&case.cfg, &bytes, case.in_lower)?;
         let p = at(&built.root, FILE).map_err(|e| e.to_string())?;
